@@ -4,6 +4,7 @@ import HkModel.Drive.Egress
 import HkModel.Drive.Route
 import HkModel.Drive.Auth
 import HkModel.Drive.Signing
+import HkModel.Drive.ApiAuth
 /-! `hkdriver <mode>`: reads protocol lines on stdin, answers one line per input line. -/
 open Hk
 
@@ -48,6 +49,7 @@ def main (args : List String) : IO UInt32 := do
   | ["egress"] => runPure DriveEgress.processLine
   | ["ingress"] => runPure DriveRoute.processLine
   | ["signing"] => runPure DriveSigning.processLine
+  | ["apiauth"] => runPure DriveApiAuth.processLine
   | ["auth"] =>
     let st ← loopAuth stdin stdout {}
     stdout.putStrLn ("SUMMARY {\"steps\":" ++ toString st.n ++ ",\"not_ok\":" ++ toString st.bad ++ "}")
